@@ -388,16 +388,21 @@ func (s *Syncer) handleRPC(id types.Specifier, stream *gateway.Stream, origin *P
 			s.resync(origin, fmt.Sprintf("peer relayed a v2 outline with unknown parent (%v)", r.Block.ParentID))
 			return nil
 		}
+		// NOTE: an outline's ID commits to the full state of its parent. For a
+		// parent that was stored but never applied (a sidechain block) we only
+		// hold a header-level state, so the ID computed below is meaningless:
+		// it must not be used to judge the peer before we know that the
+		// outline attaches to our tip (whose state is always complete).
 		bid := r.Block.ID(cs)
 		if _, ok := s.cm.State(bid); ok {
 			return nil // already seen
-		} else if bid.CmpWork(cs.PoWTarget()) < 0 {
-			return s.ban(origin, errors.New("peer sent v2 outline with insufficient work"))
 		} else if r.Block.ParentID != s.cm.Tip().ID {
 			// block extends a sidechain, which peer (if honest) believes to be the
 			// heaviest chain
 			s.resync(origin, "peer relayed a v2 outline that does not attach to our tip")
 			return nil
+		} else if bid.CmpWork(cs.PoWTarget()) < 0 {
+			return s.ban(origin, errors.New("peer sent v2 outline with insufficient work"))
 		}
 		log.Debug("received v2 block outline", zap.Stringer("blockID", bid), zap.Stringer("origin", origin))
 		// block has sufficient work and attaches to our tip, but may be missing
